@@ -65,7 +65,10 @@ func (n *Network) HasEdgeBetween(xid, yid int64) bool {
 // must be directly reachable from u as defined by the
 // From method.
 func (n *Network) Edge(uid, vid int64) graph.Edge {
-	return n.edgeBetween(uid, vid, true)
+	if edge := n.edgeBetween(uid, vid, true); edge != nil {
+		return edge
+	}
+	return nil
 }
 
 // the Gonum graph.Weighted
@@ -76,7 +79,10 @@ func (n *Network) Edge(uid, vid int64) graph.Edge {
 // nil otherwise. The node v must be directly
 // reachable from u as defined by the From method.
 func (n *Network) WeightedEdge(uid, vid int64) graph.WeightedEdge {
-	return n.edgeBetween(uid, vid, true)
+	if edge := n.edgeBetween(uid, vid, true); edge != nil {
+		return edge
+	}
+	return nil
 }
 
 // Weight returns the weight for the edge between
